@@ -21,27 +21,28 @@ Definition A_KPOS := 8.  Definition A_KMAT := 9.   Definition A_KVAR := 10. Defi
 Definition C_FIELD := 20. Definition C_RAWF := 21. Definition C_RAWK := 22.
 Definition C_X := 23.     Definition C_Y := 24.    Definition C_Z := 25.
 Definition G_PERIOD := 30.
-Definition M_ANIS := 40.  Definition M_ANGLES := 41.
+Definition M_ANIS := 40.  Definition M_ANGLES := 41.  Definition M_MEAN := 42.  Definition M_TREND := 43.
+Definition C_REFEXT := 26.  Definition C_REFEXT_Z := 27.
 
 Inductive entry :=
 | EVario | EVarioAxis | EStdBins | EFieldCall | EPostField | EApplyMNT | ERemoveTNM | ETransform
-| ESRFCall | EKrigeCond | EKrigeCall | ECondSRF | EFitVario | ENormalizer | EGenerator | EArrayFn | ECovModel | EGeoTool | EModelEval.
+| ESRFCall | EKrigeCond | EKrigeCall | ECondSRF | EFitVario | ENormalizer | EGenerator | EArrayFn | ECovModel | EGeoTool | EModelEval | EMeanTrend.
 
 Definition entries : list entry :=
   [EVario; EVarioAxis; EStdBins; EFieldCall; EPostField; EApplyMNT; ERemoveTNM; ETransform;
-   ESRFCall; EKrigeCond; EKrigeCall; ECondSRF; EFitVario; ENormalizer; EGenerator; EArrayFn; ECovModel; EGeoTool; EModelEval].
+   ESRFCall; EKrigeCond; EKrigeCall; ECondSRF; EFitVario; ENormalizer; EGenerator; EArrayFn; ECovModel; EGeoTool; EModelEval; EMeanTrend].
 
 Definition entry_id (e : entry) : nat :=
   match e with
   | EVario => 0 | EVarioAxis => 1 | EStdBins => 2 | EFieldCall => 3 | EPostField => 4 | EApplyMNT => 5
   | ERemoveTNM => 6 | ETransform => 7 | ESRFCall => 8 | EKrigeCond => 9 | EKrigeCall => 10
-  | ECondSRF => 11 | EFitVario => 12 | ENormalizer => 13 | EGenerator => 14 | EArrayFn => 15 | ECovModel => 16 | EGeoTool => 17 | EModelEval => 18
+  | ECondSRF => 11 | EFitVario => 12 | ENormalizer => 13 | EGenerator => 14 | EArrayFn => 15 | ECovModel => 16 | EGeoTool => 17 | EModelEval => 18 | EMeanTrend => 19
   end.
 
 Definition entry_of_id (n : nat) : option entry := nth_error entries n.
 
 (* ---- configuration spaces (meaning of each digit: see the program of the entry point) *)
-Definition dims (e : entry) : list nat :=
+Definition base_dims (e : entry) : list nat :=
   match e with
   | EVario      => [2; 3; 3; 2; 3; 2; 2; 2; 2; 2; 2; 2; 3]
       (* pos f64/other; field ndarray f64 / other / masked array; bin_edges none/f64/other; mask;
@@ -73,9 +74,10 @@ Definition dims (e : entry) : list nat :=
   | EKrigeCall  => [3; 2; 4; 2; 2; 2; 3; 2; 2; 4]
       (* pos layout; structured; ext_drift none / layout 0,1,2; only_mean; return_var; post_process;
          store True/["a","b"]/False; chunked; mean+trend+normalizer; history *)
-  | ECondSRF    => [3; 2; 2; 3; 2; 2; 2; 4]
+  | ECondSRF    => [3; 2; 2; 3; 2; 2; 2; 4; 3]
       (* pos layout; structured; post_process; store True/["x","y","z"]/False; krige_store; mean+..;
-         nugget>0; history none / same pos (reuse branch) / other pos *)
+         nugget>0; history none / same pos (reuse branch) / other pos / stored pos; ext_drift given with the call
+         none / float64 / other (remembered by the object for the reuse test) *)
   | EFitVario   => [3; 3; 4; 2; 2; 2]       (* x layout; y layout; weights none/"inv"/f64/other; directional; latlon; r2 *)
   | ENormalizer => [7; 6; 2; 2; 2; 3]       (* class; method; data f64/other; NaN; out-of-range; parameters default / lmbda=0 / other *)
   | EGenerator  => [3; 2; 2; 2]             (* generator; pos f64/other; nugget; non-default mean_u / sampling / mode grid *)
@@ -88,17 +90,26 @@ Definition dims (e : entry) : list nat :=
          tplstable_cor, tpl_*_spec_dens; layout class of the array; options default / temporal with time_scale <> 1 and
          radius <> 1 / second non-default set *)
   | EModelEval  => [7; 4; 3]
+  | EMeanTrend  => [2; 2; 3]
+      (* Field/SRF/Krige constructor or attribute setter; mean / trend; float64 vector / other vector / scalar *)
       (* CovModel.isometrize, anisometrize, *_spatial, variogram/covariance/.., *_yadrenko, spectral functions, *_axis;
          model plain / temporal / latlon / latlon+temporal (time anisotropy <> 1); layout class of the array *)
       (* gstools.transform.array_discrete,boxcox,zinnharvey,force_moments,to_lognormal,to_uniform,to_arcsin,
          to_uquad; data f64/other; numeric arguments default / two non-default sets *)
   end.
 
+(* every configuration ends with one more digit: how the float64 array arguments are held by the caller -
+   0 arrays that own their data / 1 contiguous VIEWS (row of a 2-D array, ravel / reshape of an n-D array) /
+   2 strided VIEWS (column of a table, slice with a step).  numpy collapses base chains, so a view of a view has
+   the caller's buffer as base; the effect of every primitive is the same for the three kinds (the programs do
+   not read this digit) and the sweep confirms that on the implementation. *)
+Definition dims (e : entry) : list nat := base_dims e ++ [3].
+
 Definition nargs (e : entry) : nat :=
   match e with
   | EVario => 7 | EVarioAxis => 2 | EStdBins => 1 | EFieldCall => 2 | EPostField => 1 | EApplyMNT => 2
-  | ERemoveTNM => 2 | ETransform => 2 | ESRFCall => 2 | EKrigeCond => 4 | EKrigeCall => 2 | ECondSRF => 1
-  | EFitVario => 3 | ENormalizer => 1 | EGenerator => 3 | EArrayFn => 3 | ECovModel => 3 | EGeoTool => 2 | EModelEval => 1
+  | ERemoveTNM => 2 | ETransform => 2 | ESRFCall => 2 | EKrigeCond => 4 | EKrigeCall => 2 | ECondSRF => 2
+  | EFitVario => 3 | ENormalizer => 1 | EGenerator => 3 | EArrayFn => 3 | ECovModel => 3 | EGeoTool => 2 | EModelEval => 1 | EMeanTrend => 1
   end.
 
 Definition nz (n : nat) : bool := negb (n =? 0).
@@ -116,6 +127,8 @@ Definition pre_attrs (e : entry) (c : list nat) : list attr :=
   | ECovModel => if nz (dg c 0) then [M_ANIS; M_ANGLES] else []
   | ECondSRF => [A_CPOS; A_CVAL; A_CEXT; A_KPOS; A_KMAT]
                 ++ (if nz (dg c 7) then [A_POS; C_FIELD; C_RAWF; C_RAWK; A_FIELD; A_KVAR] else [])
+                ++ (if nz (dg c 7) && nz (dg c 8) then [C_REFEXT] else [])
+  | EMeanTrend => if nz (dg c 0) then [M_MEAN; M_TREND] else []
   | _ => []
   end.
 
@@ -126,7 +139,8 @@ Definition obs_attrs (e : entry) : list attr :=
   | ETransform => [A_FIELD; A_B]
   | EKrigeCond => [A_CPOS; A_CVAL; A_CEXT; A_CERR; A_KPOS; A_KMAT]
   | EKrigeCall => [A_POS; A_FIELD; A_KVAR; A_MEANF; A_A; A_B]
-  | ECondSRF => [A_POS; C_FIELD; C_RAWF; C_RAWK; C_X; C_Y; C_Z; A_FIELD; A_KVAR]
+  | ECondSRF => [A_POS; C_FIELD; C_RAWF; C_RAWK; C_X; C_Y; C_Z; A_FIELD; A_KVAR; C_REFEXT; C_REFEXT_Z]
+  | EMeanTrend => [M_MEAN; M_TREND]
   | EGenerator => [G_PERIOD]
   | ECovModel => [M_ANIS; M_ANGLES]
   | _ => []
@@ -301,16 +315,20 @@ Definition p_cond_srf (fx : bool) (c : list nat) : list prim :=
   let n1 := if st =? 1 then C_Y else C_RAWF in
   let n2 := if st =? 1 then C_Z else C_RAWK in
   let reuse := ((hist =? 1) || (hist =? 3)) && negb (st =? 1) in
+  let ext := nz (dg c 8) in
   set_pos (dg c 0) (nz (dg c 1)) hist (del_fields ++ del_cfields)
   ++ [New 13 1 [12]; Alias 13 13]                                    (* raw random field *)
+  ++ when ext [New 24 1 [1]; Alias 24 24]                              (* np.array(ext_drift).reshape(-1): a copy *)
   ++ (if reuse then [Load 14 n2; Load 15 A_KVAR]
-      else [New 14 2 []; New 15 2 []; Load 16 A_KMAT; Load 17 A_CVAL; Load 18 A_KPOS; New 19 3 [18; 12];
+      else [New 14 2 []; New 15 2 []; Load 16 A_KMAT; Load 17 A_CVAL; Load 18 A_KPOS; New 19 3 ([18; 12] ++ when ext [1]);
             Write 14 4 [16; 19; 17]; Write 15 4 [16; 19; 17]; Alias 14 14]
            ++ post_field fx 14 None false
            ++ [New 15 5 [15]; Alias 15 15] ++ post_field fx 15 (if kst then Some A_KVAR else None) false)
   ++ [New 20 6 [15]] ++ when (nz (dg c 6)) [New 21 7 [15; 20]]         (* scaling, nugget *)
   ++ when (negb reuse) ([New 22 8 [14]] ++ post_field fx 22 (if kst then Some A_FIELD else None) pp)
-  ++ when (negb reuse) (post_field fx 14 (if save then Some n2 else None) false)
+  ++ when (negb reuse) (post_field fx 14 (if save then Some n2 else None) false
+                        ++ when save (let a := if st =? 1 then C_REFEXT_Z else C_REFEXT in
+                                      if ext then [Store a 24] else [Del a]))   (* _krige_ref remembers the drift *)
   ++ post_field fx 13 (if save then Some n1 else None) false
   ++ [New 23 9 ([14; 20; 13] ++ when (nz (dg c 6)) [21])]
   ++ post_field fx 23 (if save then Some n0 else None) pp
@@ -416,6 +434,12 @@ Definition p_geo_tool (c : list nat) : list prim :=
 Definition p_model_eval (c : list nat) : list prim :=
   conv 10 0 (dg c 2) ++ [New 11 1 [10]; New 12 2 [11]; Ret 12].
 
+(* ---- mean / trend given to a Field, SRF or Krige (constructor or attribute setter): _set_mean_trend keeps a
+   COPY of a vector value (since /repo 9c5b77f), a scalar is stored as a float *)
+Definition p_mean_trend (c : list nat) : list prim :=
+  let a := if dg c 1 =? 0 then M_MEAN else M_TREND in
+  if dg c 2 =? 2 then [Del a] else [New 10 1 [0]; Alias 10 10; Store a 10].
+
 Definition prog (fx : bool) (e : entry) (c : list nat) : list prim :=
   match e with
   | EVario => p_vario fx c
@@ -436,10 +460,13 @@ Definition prog (fx : bool) (e : entry) (c : list nat) : list prim :=
   | ECovModel => p_covmodel c
   | EGeoTool => p_geo_tool c
   | EModelEval => p_model_eval c
+  | EMeanTrend => p_mean_trend c
   end.
 
-Definition program := prog true.        (* the code as it is now *)
-Definition old_program := prog false.   (* the pinned tree before the four repairs *)
+(* the effect program is selected by the base digits only; the trailing view digit is dropped explicitly *)
+Definition base_cfg (e : entry) (c : list nat) : list nat := firstn (length (base_dims e)) c.
+Definition program (e : entry) (c : list nat) : list prim := prog true e (base_cfg e c).       (* the code as it is now *)
+Definition old_program (e : entry) (c : list nat) : list prim := prog false e (base_cfg e c).  (* the pinned tree *)
 
 (* ---- canonical execution: one distinct buffer per argument and per pre-existing attribute *)
 Fixpoint index_of (a : attr) (l : list attr) : option nat :=
@@ -458,7 +485,7 @@ Definition init_state (e : entry) (c : list nat) : state (V := unit) :=
      [] [] false.
 
 Definition final_state (fx : bool) (e : entry) (c : list nat) : state :=
-  run unit_interp (prog fx e c) (init_state e c).
+  run unit_interp (prog fx e (base_cfg e c)) (init_state e c).
 
 (* buffers of the caller / of the earlier history that the call writes in place *)
 Definition written_initial (fx : bool) (e : entry) (c : list nat) : list cid :=
@@ -502,14 +529,14 @@ Fixpoint wf (p : list prim) (bl : var -> bool) (ba : attr -> bool) : bool :=
   end.
 
 Definition wf_entry (fx : bool) (e : entry) (c : list nat) : bool :=
-  wf (prog fx e c) (fun v => v <? nargs e) (fun a => existsb (Nat.eqb a) (pre_attrs e c)).
+  wf (prog fx e (base_cfg e c)) (fun v => v <? nargs e) (fun a => existsb (Nat.eqb a) (pre_attrs e (base_cfg e c))).
 
 (* ---- the finite checks *)
-Definition noalias_entry (e : entry) : bool := forallb (fun c => noalias0 (program e c)) (all_cfgs (dims e)).
-Definition safe_entry (e : entry) : bool := forallb (fun c => safe0 (program e c)) (all_cfgs (dims e)).
+Definition noalias_entry (e : entry) : bool := forallb (fun c => noalias0 (program e c)) (all_cfgs (base_dims e)).
+Definition safe_entry (e : entry) : bool := forallb (fun c => safe0 (program e c)) (all_cfgs (base_dims e)).
 Definition safe_all : bool := forallb safe_entry entries.
 Definition wf_all : bool :=
-  forallb (fun e => forallb (fun c => wf_entry true e c && wf_entry false e c) (all_cfgs (dims e))) entries.
+  forallb (fun e => forallb (fun c => wf_entry true e c && wf_entry false e c) (all_cfgs (base_dims e))) entries.
 Definition cfg_count (e : entry) : Z := fold_right Z.mul 1%Z (map Z.of_nat (dims e)).
 Definition total_cfgs : Z := fold_right Z.add 0%Z (map cfg_count entries).
 
@@ -523,10 +550,10 @@ Lemma noalias_all_true : forallb noalias_entry entries = true.
 Proof. vm_compute. reflexivity. Qed.
 
 Lemma wf_all_true :
-  forallb (fun e => forallb (fun c => wf_entry true e c && wf_entry false e c) (all_cfgs (dims e))) entries = true.
+  forallb (fun e => forallb (fun c => wf_entry true e c && wf_entry false e c) (all_cfgs (base_dims e))) entries = true.
 Proof. vm_compute. reflexivity. Qed.
 
-Lemma total_cfgs_value : total_cfgs = 63840%Z.
+Lemma total_cfgs_value : total_cfgs = 198468%Z.
 Proof. vm_compute. reflexivity. Qed.
 
 Lemma cfg_count_spec e : Z.of_nat (length (all_cfgs (dims e))) = cfg_count e.
@@ -538,21 +565,42 @@ Qed.
 Lemma forallb_In {A} (f : A -> bool) l x : forallb f l = true -> In x l -> f x = true.
 Proof. intros H. apply (proj1 (forallb_forall f l) H). Qed.
 
+(* the finite checks run over the base digits; they lift to every configuration with a view digit *)
+Lemma valid_firstn (b : list nat) : forall d c, valid_cfg (b ++ [d]) c -> valid_cfg b (firstn (length b) c).
+Proof.
+  unfold valid_cfg. induction b as [|h t IH]; intros d c H; simpl.
+  - constructor.
+  - inversion H; subst. constructor; auto. eapply IH; eauto.
+Qed.
+
+Lemma base_cfg_valid e c : valid_cfg (dims e) c -> valid_cfg (base_dims e) (base_cfg e c).
+Proof. unfold dims, base_cfg. apply valid_firstn. Qed.
+
+Lemma base_cfg_idem e c : base_cfg e (base_cfg e c) = base_cfg e c.
+Proof. unfold base_cfg. rewrite firstn_firstn, Nat.min_id. reflexivity. Qed.
+
+Lemma lift_check (Q : list nat -> bool) e :
+  forallb (fun b => Q (base_cfg e b)) (all_cfgs (base_dims e)) = true ->
+  forall c, valid_cfg (dims e) c -> Q (base_cfg e c) = true.
+Proof.
+  intros H c Hc.
+  pose proof (forallb_In _ _ (base_cfg e c) H (all_cfgs_complete _ _ (base_cfg_valid e c Hc))) as H1.
+  cbv beta in H1. rewrite base_cfg_idem in H1. exact H1.
+Qed.
+
 Lemma program_safe e c : valid_cfg (dims e) c -> safe0 (program e c) = true.
 Proof.
-  intros Hc.
-  exact (forallb_In (fun c => safe0 (program e c)) (all_cfgs (dims e)) c
-           (forallb_In safe_entry entries e safe_all_true (entries_complete e))
-           (all_cfgs_complete _ _ Hc)).
+  intros Hc. apply (lift_check (fun b => safe0 (prog true e b)) e); auto.
+  exact (forallb_In safe_entry entries e safe_all_true (entries_complete e)).
 Qed.
 
 Lemma program_wf e c : valid_cfg (dims e) c -> wf_entry true e c = true /\ wf_entry false e c = true.
 Proof.
   intros Hc. apply andb_true_iff.
-  exact (forallb_In (fun c => wf_entry true e c && wf_entry false e c) (all_cfgs (dims e)) c
-           (forallb_In (fun e => forallb (fun c => wf_entry true e c && wf_entry false e c) (all_cfgs (dims e)))
-                       entries e wf_all_true (entries_complete e))
-           (all_cfgs_complete _ _ Hc)).
+  apply (lift_check (fun b => wf (prog true e b) (fun v => v <? nargs e) (fun a => existsb (Nat.eqb a) (pre_attrs e b))
+                              && wf (prog false e b) (fun v => v <? nargs e) (fun a => existsb (Nat.eqb a) (pre_attrs e b))) e); auto.
+  exact (forallb_In (fun e => forallb (fun c => wf_entry true e c && wf_entry false e c) (all_cfgs (base_dims e)))
+                    entries e wf_all_true (entries_complete e)).
 Qed.
 
 (* every argument and every earlier result keeps its contents: all entry points, all configurations,
@@ -566,10 +614,8 @@ Proof. intros e c Hc V interp st cell Hl. apply run_frame; auto. apply program_s
 
 Lemma program_noalias e c : valid_cfg (dims e) c -> noalias0 (program e c) = true.
 Proof.
-  intros Hc.
-  exact (forallb_In (fun c => noalias0 (program e c)) (all_cfgs (dims e)) c
-           (forallb_In noalias_entry entries e noalias_all_true (entries_complete e))
-           (all_cfgs_complete _ _ Hc)).
+  intros Hc. apply (lift_check (fun b => noalias0 (prog true e b)) e); auto.
+  exact (forallb_In noalias_entry entries e noalias_all_true (entries_complete e)).
 Qed.
 
 (* stored state never aliases caller arrays: after any public call every attribute of the object refers to a
@@ -598,10 +644,10 @@ Qed.
 
 (* the pinned tree: each of the four defects is a configuration whose effect program writes a buffer
    of the caller / of the earlier history (these are the regression cases of the harness) *)
-Definition cfg_vario_latlon := [0; 0; 1; 0; 0; 0; 1; 1; 0; 0; 0; 0; 0].
-Definition cfg_axis_mask := [0; 2; 1; 0; 0].
-Definition cfg_field_call := [0; 1; 1; 0; 1; 0; 0].
-Definition cfg_transform := [5; 1; 1; 1; 1; 0; 0].
+Definition cfg_vario_latlon := [0; 0; 1; 0; 0; 0; 1; 1; 0; 0; 0; 0; 0; 0].
+Definition cfg_axis_mask := [0; 2; 1; 0; 0; 0].
+Definition cfg_field_call := [0; 1; 1; 0; 1; 0; 0; 0].
+Definition cfg_transform := [5; 1; 1; 1; 1; 0; 0; 0].
 
 Lemma pinned_tree_refuted :
   written_initial false EVario cfg_vario_latlon = [3]          (* the caller's bin_edges *)
